@@ -38,7 +38,8 @@
   printed text): `C13_python_reads_back_the_lines_up_to_float_representation`.  Where the
   exact condition holds, re-reading is the identity (`C13_reader_reread_exact`).
 
-  What is NOT proved in general: that every finite float the DSL lexer can produce satisfies
+  (Closed since: `Properties/C05_float.lean` proves it for every finite binary64 value — `C05_float_repr_reads_back`,
+  `C05_python_reads_back_the_lines`.)  What was NOT proved here in general: that every finite float the DSL lexer can produce satisfies
   `floatReadsB` / `floatStableB` (i.e. that `Dbl.repr` followed by `Dbl.decToDbl` is the
   identity on values — the correctness of the shortest-digits printer).  Both conditions are
   computable and are discharged by evaluation for each concrete program.  The reader does
